@@ -4,6 +4,7 @@ package jsref
 func Parse(src string, opts Options) (prog *Program, err error) {
 	p := &parser{opts: opts, feats: map[Feature]int{}}
 	p.lx = lexer{src: src, module: opts.Module}
+	p.toks = make([]Token, 0, len(src)/4+16)
 	defer func() {
 		if r := recover(); r != nil {
 			if ab, ok := r.(parseAbort); ok {
